@@ -172,7 +172,27 @@ fn scheme_of(text: &str) -> &'static str {
 /// A piece of the source's text that the address handed to connect / bind /
 /// connect_async must contain and that no other receiver's text contains:
 /// ":port", "host:" or "/last path segment"
+/// The configured text of a receiver together with the address it will hand
+/// to connect / bind when the text is the long (JSON) form, in which host and
+/// port are separate fields: a token must be told apart from both
+fn address_forms(text: &str) -> String {
+    let mut forms = text.to_string();
+    if text.starts_with('{') {
+        if let Ok(v) = serde_json::from_str::<Value>(text) {
+            for scheme in ["tcp", "udp", "websocket", "ws"] {
+                let o = &v[scheme];
+                if let Some(a) = o["address"].as_str() {
+                    let port = o["port"].as_u64().map(|p| p.to_string()).or_else(|| o["port"].as_str().map(|s| s.to_string())).unwrap_or_default();
+                    forms.push_str(&format!(" {}:{} ", a, port));
+                }
+            }
+        }
+    }
+    forms
+}
+
 fn address_token(j: usize, texts: &[String]) -> String {
+    let forms: Vec<String> = texts.iter().map(|t| address_forms(t)).collect();
     let t = &texts[j];
     let mut cands: Vec<String> = Vec::new();
     let digits = |s: &str| -> Vec<String> {
@@ -210,7 +230,7 @@ fn address_token(j: usize, texts: &[String]) -> String {
         }
     }
     for c in &cands {
-        if !texts.iter().enumerate().any(|(k, o)| k != j && o.contains(c.as_str())) {
+        if !forms.iter().enumerate().any(|(k, o)| k != j && o.contains(c.as_str())) {
             return c.clone();
         }
     }
@@ -1060,7 +1080,7 @@ pub fn execute(plan: &PipelinePlan, prop: &'static str) -> Outcome<PipelinePlan>
         verif_net::clear();
         for (j, (pipe, source)) in pipes.into_iter().zip(sources.into_iter()).enumerate() {
             let token = address_token(j, &texts);
-            if token.is_empty() || texts.iter().enumerate().any(|(k, o)| k != j && o.contains(token.as_str())) {
+            if token.is_empty() || texts.iter().enumerate().any(|(k, o)| k != j && address_forms(o).contains(token.as_str())) {
                 // no piece of the configured address tells this receiver from
                 // the others: hand the byte stream over directly (hook H2)
                 out.count("transport_h2_direct", 1);
@@ -1251,7 +1271,7 @@ pub fn execute(plan: &PipelinePlan, prop: &'static str) -> Outcome<PipelinePlan>
             out.harness_error = Some(format!("driver panic in task {} at {}:{}: {}", p.task, p.file, p.line, p.msg));
         } else {
             // attribute the panic to the property whose component died
-            let cls = if p.task.starts_with("beast::receiver") {
+            let cls = if p.task.contains("beast::receiver") {
                 "c09.5-panic"
             } else if p.task.starts_with("dedup") {
                 "c10.panic"
